@@ -415,7 +415,7 @@ class Spellings(Part):
 
     def cases(self):
         return [{"opt": n, "v": v} for n in sorted(OPTS) if OPTS[n][2] is not True and n not in ("dump-ip-map",)
-                for v in ("plain", "punctuated") if v == "plain" or n in ("salt", "sensitive-words", "reserved-words")]
+                for v in ("plain", "punctuated", "at-sign", "dashes") if v == "plain" or n in ("salt", "sensitive-words", "reserved-words")]
 
     def run(self, case):
         res = Res()
@@ -427,6 +427,11 @@ class Spellings(Part):
                 # values with characters an argument pre-processor might touch
                 a = {"salt": "site_salt-2024 x", "sensitive-words": "big_corp,seattle,a-b", "reserved-words": "keep_me,seattle-core",
                      "log-level": a}.get(n, a)
+            elif case.get("v") == "at-sign":
+                # a value whose first character is one that argument parsers can be told to read files from
+                a = {"salt": "@dm1n", "sensitive-words": "@example.com,seattle", "reserved-words": "@home,seattle-core"}.get(n, a)
+            elif case.get("v") == "dashes":
+                a = {"salt": "+salt+", "sensitive-words": "%corp,seattle", "reserved-words": "%home,seattle-core"}.get(n, a)
             longname = "--" + key
             spellings = {"separate": [cli, a], "long-separate": [longname, a], "long-equals": [longname + "=" + a],
                          "abbreviated": [longname[:-2], a], "abbreviated-equals": [longname[:-2] + "=" + a]}
@@ -438,6 +443,18 @@ class Spellings(Part):
             d0 = box.fresh()
             ref = run_main(d0, base + need + [cli, a])
             shutil.rmtree(d0, ignore_errors=True)
+            if case.get("v", "plain") != "plain" and "sp" not in case:
+                # the same value from the config file alone
+                res.evals += 1
+                d1 = box.fresh()
+                cf = run_main(d1, base + need + ["-c", "{cfg}"], "%s = %s\n" % (key, a))
+                shutil.rmtree(d1, ignore_errors=True)
+                res.out(("config-only", cf[0], digest_tree(cf[1])))
+                if cf[0] != ref[0] or cf[1] != ref[1]:
+                    res.violation("config-file-and-command-line-differ|%s|%s" % (n, case["v"]),
+                                  "value %r: config file gives %s/%s, command line %r gives %s/%s" % (
+                                      a, cf[0], digest_tree(cf[1]), [cli, a], ref[0], digest_tree(ref[1])), case)
+                    return res
             if ref[0] != "ok":
                 res.violation("reference-vector-rejected", "argv %r -> %s" % (base + need + [cli, a], ref[0]), case)
                 return res
